@@ -240,8 +240,11 @@ impl Opcode for JumpI {
                 }?;
 
                 // If it is an error that only affects the potential _target_ thread, we need to
-                // store it and continue execution on the current thread.
-                vm.store_error(result);
+                // store it and continue execution on the current thread. These are all jump
+                // target errors, which permissive error mode tolerates just as it does for `JUMP`.
+                if !vm.config().permissive_errors {
+                    vm.store_error(result);
+                }
                 Ok(())
             }
         }
